@@ -253,3 +253,24 @@ _REANCHOR.update({
 for _w in WITNESSES:
     if _w["name"] in _REANCHOR:
         _w["old"], _w["new"] = _REANCHOR[_w["name"]]
+_REANCHOR.update({
+    # round-4 fixes moved these anchors (write_pieces, `except Exception`, the check under `not emptystream`, normpath before the climb)
+    "archive write of the pre-chain block": (
+        "            foutsize += len(data)\n            write_pieces(fp, data)\n            data = fd.read(self._block_size)\n",
+        "            foutsize += len(data)\n            write_pieces(fp, raw)\n            data = fd.read(self._block_size)\n"),
+    "regular file: CRC compare only when callback queue given": (
+        "                            if f.crc32 is not None and crc32 != f.crc32:\n                                raise CrcError(crc32, f.crc32, f.filename)\n                        except Exception:",
+        "                            if q is not None and f.crc32 is not None and crc32 != f.crc32:\n                                raise CrcError(crc32, f.crc32, f.filename)\n                        except Exception:"),
+    "just_check not cleared": (
+        "                    self._check(fp, just_check, src_end)\n                    just_check = []\n",
+        "                    self._check(fp, just_check, src_end)\n"),
+    "delayed check moved after the delivering branch": (
+        "                    self._check(fp, just_check, src_end)\n                    just_check = []\n                    if f.is_junction and not isinstance(fileish, MemIO) and sys.platform == \"win32\":",
+        "                    if f.is_junction and not isinstance(fileish, MemIO) and sys.platform == \"win32\":"),
+    "sanitiser returns before the isabs test": (
+        "        if os.path.isabs(path) or re.match(\"^[a-zA-Z]:\", path):\n            # Path is absolute even after stripping.\n            raise AbsolutePathError(arcname)\n        # what is left",
+        "        # what is left"),
+})
+for _w in WITNESSES:
+    if _w["name"] in _REANCHOR:
+        _w["old"], _w["new"] = _REANCHOR[_w["name"]]
